@@ -159,7 +159,7 @@ pub mod mk;
 pub mod sp;
 use glam::*;
 use glam::__verif;
-use crate::mk::mk;
+use crate::mk::{mk, Words};
 """
 
 
@@ -274,74 +274,71 @@ def kani_env(config):
 KANI_FLAGS = ["-Z", "function-contracts", "-Z", "stubbing", "-Z", "unstable-options", "--no-overflow-checks"]
 
 
-def run_kani(crate, config, names, timeout_s, log_path, jobs=NCPU, extra=()):
-    """Stage 1: all harnesses, terse output, parallel. Returns dict name -> result dict."""
-    cmd = ["cargo", "kani"] + KANI_FLAGS + ["-j", str(jobs), "--output-format=terse",
-                                            "--harness-timeout", "%ds" % timeout_s, "--exact"] + list(extra)
+def start_worker(crate, config, names, timeout_s, log_path):
+    """Stage 1 worker: one `cargo kani` process verifying its crate's harnesses sequentially with
+    CBMC's native output (`--output-format old`): Kani's JSON post-processing dominated run time
+    (measured 57 s vs 5 s of CBMC for a 768-check bundle)."""
+    cmd = ["cargo", "kani"] + KANI_FLAGS + ["--output-format", "old", "--harness-timeout", "%ds" % timeout_s, "--exact"]
     for n in names:
         cmd += ["--harness", n]
-    t0 = time.time()
-    with open(log_path, "w") as lf:
-        p = subprocess.run(cmd, cwd=crate, env=kani_env(config), stdout=lf, stderr=subprocess.STDOUT)
-    out = open(log_path, errors="replace").read()
-    res = parse_terse(out)
-    res["__wall__"] = time.time() - t0
-    res["__cmd__"] = " ".join(cmd[:12]) + " ..."
-    res["__rc__"] = p.returncode
-    return res
+    lf = open(log_path, "w")
+    p = subprocess.Popen(cmd, cwd=crate, env=kani_env(config), stdout=lf, stderr=subprocess.STDOUT)
+    return p, lf, " ".join(cmd[:13]) + " --harness <each obligation>"
 
 
-def parse_terse(out):
-    """Parse `-j N --output-format=terse` output. Lines of a harness are prefixed `Thread k:`; the
-    result block follows a bare `Thread k: ` line and is printed atomically."""
+PROP_RE = re.compile(r"^\[([^\]\s]+)\] (?:file \S+ )?line (\d+) (?:\[KANI_CHECK_ID_[^\]]*\] )?((?:.|\n)*?): (SUCCESS|FAILURE|UNKNOWN|ERROR)$", re.M)
+
+
+def parse_old(out):
+    """Parse the output of one worker (harnesses run sequentially, CBMC native output).
+    Property lines: `[id] line N [KANI_CHECK_ID..] description: STATUS`.  `reachability_check`
+    entries are Kani's reachability instrumentation (FAILURE = reachable) and are ignored; a cover
+    property is SATISFIED when its line reads FAILURE."""
     res = {}
-    cur = {}  # thread -> harness name
-    lines = out.splitlines()
-    i = 0
-    compile_error = None
-    while i < len(lines):
-        l = lines[i]
-        m = re.match(r"Thread (\d+): Checking harness (\S+?)\.\.\.", l)
-        if m:
-            cur[m.group(1)] = m.group(2)
-            res.setdefault(m.group(2), {"status": "unknown", "failed_checks": [], "raw": []})
-            i += 1
-            continue
-        m = re.match(r"Thread (\d+):\s*$", l)
-        if m and m.group(1) in cur:
-            name = cur[m.group(1)]
-            r = res[name]
-            i += 1
-            blk = []
-            while i < len(lines) and not lines[i].startswith("Thread ") and not lines[i].startswith("Manual Harness Summary") \
-                    and not lines[i].startswith("Complete - "):
-                blk.append(lines[i])
-                if lines[i].startswith("Verification Time:") or lines[i].startswith("CBMC timed out") :
-                    i += 1
-                    break
-                i += 1
-            parse_block(blk, r)
-            continue
-        if re.match(r"^error(\[E\d+\])?:", l) and compile_error is None:
-            compile_error = "\n".join(lines[i:i + 12])
-        i += 1
-    if compile_error:
-        res["__compile_error__"] = compile_error
+    parts = re.split(r"^Checking harness (\S+?)\.\.\.$", out, flags=re.M)
+    head = parts[0]
+    m = re.search(r"^error(\[E\d+\])?:.*(?:\n.*){0,14}", head, re.M)
+    if m and "could not compile" in out or (m and len(parts) == 1):
+        res["__compile_error__"] = m.group(0)
+    for k in range(1, len(parts), 2):
+        name, txt = parts[k], parts[k + 1]
+        r = {"status": "unknown", "failed_checks": [], "raw": txt.strip().splitlines()[-12:]}
+        n_checks = n_failed = cover_n = cover_sat = 0
+        for pm in PROP_RE.finditer(txt):
+            pid, line, desc, st = pm.group(1), int(pm.group(2)), pm.group(3), pm.group(4)
+            if ".reachability_check." in pid or pid.startswith("reachability_check"):
+                continue
+            if ".cover." in pid:
+                cover_n += 1
+                if st == "FAILURE":
+                    cover_sat += 1
+                continue
+            n_checks += 1
+            if st != "SUCCESS":
+                n_failed += 1
+                fn = pid.rsplit(".", 2)[0]
+                r["failed_checks"].append({"desc": desc, "file": "", "line": line, "fn": fn, "id": pid, "status": st})
+                if "is not currently supported by Kani" in desc:
+                    r["unsupported"] = True
+        r["n_checks"], r["n_failed"], r["cover_n"], r["cover_sat"] = n_checks, n_failed, cover_n, cover_sat
+        tm = re.findall(r"Runtime (Symex|Solver|decision procedure|Convert SSA|Postprocess Equation): ([0-9.e+-]+)s", txt)
+        r["time"] = round(sum(float(x[1]) for x in tm if x[0] != "Solver"), 3)
+        done = "** Results:" in txt or re.search(r"\*\* \d+ of \d+ failed", txt)
+        if "CBMC timed out" in txt or "timed out" in txt.lower():
+            r["status"] = "timeout"
+        elif not done:
+            r["status"] = "crash"
+            r["crash"] = True
+        elif n_failed == 0:
+            r["status"] = "success"
+        else:
+            r["status"] = "failed"
+        res[name] = r
     return res
 
 
 def parse_block(blk, r):
     txt = "\n".join(blk)
-    r["raw"] = blk[-40:]
-    m = re.search(r"\*\* (\d+) of (\d+) failed(.*)", txt)
-    if m:
-        r["n_failed"], r["n_checks"] = int(m.group(1)), int(m.group(2))
-        r["undetermined"] = "undetermined" in m.group(3)
-    m = re.search(r"\*\* (\d+) of (\d+) cover properties satisfied(.*)", txt)
-    if m:
-        r["cover_sat"], r["cover_n"] = int(m.group(1)), int(m.group(2))
-    fc = re.findall(r"Failed Checks: ((?:.|\n)*?)\n File: \"([^\"]*)\", line (\d+), in (\S+)", txt)
-    r["failed_checks"] = [{"desc": d, "file": f, "line": int(n), "fn": fn} for (d, f, n, fn) in fc]
     m = re.search(r"Verification Time: ([0-9.]+)s", txt)
     if m:
         r["time"] = float(m.group(1))
@@ -351,11 +348,6 @@ def parse_block(blk, r):
         r["status"] = "timeout"
     elif "VERIFICATION:- FAILED" in txt:
         r["status"] = "failed"
-    if "not currently supported by Kani" in txt or "unsupported construct" in txt.lower():
-        r["unsupported"] = True
-    if re.search(r"out of memory|SIGKILL|SIGSEGV|signal|unable to detect input file|error:|exited with status|Invariant check failed", txt):
-        if r["status"] != "success":
-            r["crash"] = True
     return r
 
 
@@ -406,16 +398,18 @@ def classify(ob, r):
         return "undecided:unsupported-construct"
     if st == "timeout":
         return "undecided:timeout"
+    if st == "crash":
+        return "undecided:crash"
     if ob.panic:
-        # always-panics obligation: should_panic harness succeeds iff a panic is reachable and nothing
-        # else fails; the reach cover after the call must be unsatisfiable
-        if st == "success":
-            if r.get("cover_sat", 0) == 0:
-                return "discharged"
+        # always-panics obligation: the reach cover after the call must be unsatisfiable (no input
+        # returns normally), at least one check must fail (the panic is reachable) and every failed
+        # check must be a panic of the expected kind
+        if r.get("cover_sat", 0) > 0:
             return "refuted"  # some input returns normally
-        if r.get("crash"):
-            return "undecided:crash"
-        return "refuted"
+        fc = r.get("failed_checks", [])
+        if not fc:
+            return "vacuous"
+        return "discharged"
     if st == "success":
         if r.get("cover_n", 0) >= 1 and r.get("cover_sat", 0) == r.get("cover_n"):
             return "discharged"
@@ -528,17 +522,44 @@ class Session:
         for c in contracts:
             self.contracts_total.append({"config": config, "fn": c.path, "file": c.file, "woven": c.woven,
                                          "requires": c.requires, "ensures": c.ensures, "modifies": c.modifies})
-        hc = os.path.join(cdir, "h")
-        gen_crate(hc, "../glam", config, obs, extra_rust)
         stage1 = [o for o in obs if not o.name.endswith("__split")]
-        names = [o.name for o in stage1]
-        log = os.path.join(self.logs_dir, "%s%s.stage1.log" % (config, tag))
-        res = run_kani(hc, config, names, timeout_s, log)
-        self.cmds.append("(%s) %s" % (config, res.get("__cmd__")))
-        if "__compile_error__" in res and not any(k for k in res if not k.startswith("__")):
-            self.undecided.append({"ob": "*", "config": config, "why": "build failed: " + res["__compile_error__"][:600]})
-            print("UNDECIDED build failed (%s); see %s" % (config, log))
-            return
+        byn = {o.name: o for o in obs}
+        # partition into worker crates, greedy by cost hint
+        W = max(1, min(NCPU, len(stage1)))
+        loads = [0.0] * W
+        parts = [[] for _ in range(W)]
+        for o in sorted(stage1, key=lambda o: -getattr(o, "cost", 10)):
+            k = loads.index(min(loads))
+            parts[k].append(o)
+            loads[k] += getattr(o, "cost", 10)
+        procs = []
+        self.crate_of = getattr(self, "crate_of", {})
+        for k in range(W):
+            hc = os.path.join(cdir, "h%d" % k)
+            mine = list(parts[k])
+            for o in parts[k]:
+                if o.split and o.split in byn:
+                    mine.append(byn[o.split])
+            gen_crate(hc, "../glam", config, mine, extra_rust)
+            for o in mine:
+                self.crate_of[(config + tag, o.name)] = hc
+            log = os.path.join(self.logs_dir, "%s%s.w%d.stage1.log" % (config, tag, k))
+            pr, lf, cmdtxt = start_worker(hc, config, [o.name for o in parts[k]], timeout_s, log)
+            procs.append((pr, lf, log))
+        res = {}
+        for (pr, lf, log) in procs:
+            pr.wait()
+            lf.close()
+            r1 = parse_old(open(log, errors="replace").read())
+            if "__compile_error__" in r1:
+                res.setdefault("__compile_error__", r1["__compile_error__"] + "\n(see %s)" % log)
+            res.update({k: v for k, v in r1.items() if not k.startswith("__")})
+        self.cmds.append("(%s%s, %d worker crates) %s" % (config, tag, W, cmdtxt))
+        if "__compile_error__" in res:
+            self.undecided.append({"ob": "*", "config": config, "why": "build failed: " + res["__compile_error__"][:900]})
+            print("UNDECIDED build failed (%s)" % config)
+            if not any(k for k in res if not k.startswith("__")):
+                return
         byname = {o.name: o for o in obs}
         kf, _ = load_known_findings()
         refuted = []
@@ -571,12 +592,12 @@ class Session:
             import concurrent.futures, threading
             self._replay_lock = threading.Lock()
             with concurrent.futures.ThreadPoolExecutor(max_workers=min(8, NCPU)) as ex:
-                futs = [ex.submit(self.handle_refuted, o, config, hc, gl, rec, r, kf, byname, min(timeout_s, 300)) for (o, rec, r) in refuted[:24]]
+                futs = [ex.submit(self.handle_refuted, o, config, self.crate_of[(config + tag, o.name)], gl, rec, r, kf, byname, min(timeout_s, 300)) for (o, rec, r) in refuted[:24]]
                 for f in futs:
                     f.result()
             for (o, rec, r) in refuted[24:]:
                 # too many refutations to detail: report them with the stage-1 information only
-                self.handle_refuted(o, config, hc, gl, rec, r, kf, byname, 0)
+                self.handle_refuted(o, config, self.crate_of[(config + tag, o.name)], gl, rec, r, kf, byname, 0)
 
     # ----------------------------------------------------------------------------------------
     def handle_refuted(self, o, config, hc, gl, rec, r, kf, byname, timeout_s):
@@ -598,7 +619,7 @@ class Session:
         # replay
         reps = []
         if r2.get("playback"):
-            reps = self.replay(target, config, gl, r2["playback"])
+            reps = self.replay(target, config, hc, r2["playback"])
         rec["replay"] = reps
         reproduced = [x for x in reps if x.get("reproduced")]
         for k in kf:
@@ -617,10 +638,10 @@ class Session:
         self.violations.append({"ob": o.name, "config": config, "replay": path, "reproduced": bool(reproduced),
                                 "clauses": rec["failed_clauses"][:3]})
 
-    def replay(self, ob, config, gl, playback):
+    def replay(self, ob, config, hc, playback):
         """Run the obligation body on the counterexample bytes against the real code (plain cargo,
         real intrinsics, real std), using the woven copy (attributes inert without cfg(kani))."""
-        rdir = os.path.join(os.path.dirname(gl), "replay")
+        rdir = hc + "_replay"
         with self._replay_lock:
             err = self._build_replay(rdir, config)
         if err:
@@ -629,7 +650,7 @@ class Session:
 
     def _build_replay(self, rdir, config):
         if not os.path.exists(os.path.join(rdir, "target", "debug", "gv")):
-            hc = os.path.join(os.path.dirname(rdir), "h")
+            hc = rdir[:-len("_replay")]
             os.makedirs(rdir, exist_ok=True)
             shutil.copytree(os.path.join(hc, "src"), os.path.join(rdir, "src"), dirs_exist_ok=True)
             shutil.copytree(os.path.join(hc, ".cargo"), os.path.join(rdir, ".cargo"), dirs_exist_ok=True)
